@@ -660,7 +660,7 @@ prop(
               ("receive_requested_before_send_called", 60000), ("receive_requested_after_send_returned", 120000),
               ("sends_called_out_of_order", 90000), ("receive_requested_beyond_receiver_capacity", 8000),
               ("histories_same_gate_to_two_peers", 2000), ("histories_duplex_circuit", 3000),
-              ("histories_with_active_work_override", 9000), ("manual_orders_completed", 2000)],
+              ("histories_with_active_work_override", 9000), ("manual_orders_completed", 2000), ("full_windows_sent_then_received", 8)],
 )
 
 # the deciding method per property (MANIFEST "technique")
